@@ -12,7 +12,7 @@ from . import sym, extract
 from .sym import SVal, SInt, SBool, SOpt, SEnum, SSeq, Unsupported, _ie, _be, is_sym, merge
 from .spec import SSet, SpecFn, empty_set
 from .engine import (Engine, ReturnEx, BreakEx, ContinueEx, PathEnd, PyRaise, Opaque, HList, HSetList, HSymList,
-                     HIter, HMap, SObj, Closure, BoundMethod, Frame, Loop, Contract, call_by_names, conjuncts, MISSING)
+                     HIter, HMap, HFile, SObj, Closure, BoundMethod, Frame, Loop, Contract, call_by_names, conjuncts, MISSING)
 
 
 def exc_matches(exc_type, handler_type):
@@ -65,7 +65,7 @@ class Interp(Engine):
             for h in hyps:
                 self.run.pc.append(h)
             frame.vars.update(args)
-            self.entry_args = dict(args)
+            self.entry_args = dict((k, self.replay_copy(v)) for k, v in args.items())
             self.entry_snap = dict(("_old_" + k, self.snapshot(v)) for k, v in args.items())
             if contract.requires is not None:
                 for _, e in conjuncts(call_by_names(contract.requires, args)):
@@ -88,6 +88,7 @@ class Interp(Engine):
             avail = dict(args)
             avail.update(self.entry_snap)
             avail["result"] = result
+            avail["_engine"] = self
             avail["_ny"] = frame.ny
             avail["_ys"] = frame.ys
             for kname, kv in frame.vars.items():
@@ -108,9 +109,17 @@ class Interp(Engine):
         self.explore(thunk, where)
         return fs
 
+    def replay_copy(self, v):
+        """entry-state copy of a mutable input (for turning a counter-model into concrete inputs)"""
+        if isinstance(v, HFile):
+            return HFile(v.seq, v._pos)
+        if isinstance(v, HIter):
+            return HIter(v.seq, v._pos)
+        return v
+
     def snapshot(self, v):
         """entry value of a parameter for old(): immutable views of mutable heap objects"""
-        if isinstance(v, HIter):
+        if isinstance(v, (HIter, HFile)):
             return SObj(pos=v.pos, data=v.seq)
         if isinstance(v, HSetList):
             return SObj(set=v.sset)
@@ -782,7 +791,7 @@ class Interp(Engine):
                 return getattr(base, name)
             except AttributeError:
                 raise PyRaise(AttributeError, name, node)
-        if isinstance(base, (HList, HSymList, HSetList, HIter, HMap, SSeq, SSet, BinStr)):
+        if isinstance(base, (HList, HSymList, HSetList, HIter, HMap, SSeq, SSet, BinStr, HFile)):
             return BoundMethod(base, name)
         if isinstance(base, SEnum):
             return base.map(lambda t: getattr(t, name)).collapse()
@@ -1039,6 +1048,18 @@ class Interp(Engine):
             return self.call(fn.func, list(fn.args) + list(args), kw, node, f)
         if isinstance(fn, types.MethodType) and _is_repo(fn.__func__):
             return self.call(fn.__func__, [fn.__self__] + list(args), kwargs, node, f)
+        extc = self.contracts.get("%s:%s" % (getattr(fn, "__module__", None), getattr(fn, "__name__", None))) if not isinstance(fn, type) else None
+        if extc and not (isinstance(fn, types.FunctionType) and _is_repo(fn)):
+            # assumed contract on an external dependency: its precondition is a proof obligation at the
+            # call site, its result is opaque
+            c = extc[0] if isinstance(extc, list) else extc
+            vals = dict(zip(c.external_args, args))
+            vals.update(kwargs)
+            vals["_engine"] = self
+            if c.requires is not None:
+                self.prove(call_by_names(c.requires, vals), "pre-of-%s" % c.qualname, getattr(node, "lineno", 0))
+            self.assumed.add("external %s: assumed contract (result unmodelled)" % c.target)
+            return Opaque(c.qualname, c.result_pytype)
         model = _BUILTIN_MODELS.get(_fn_key(fn))
         if model is not None:
             return model(self, args, kwargs, node, f)
@@ -1166,7 +1187,10 @@ class Interp(Engine):
         vals = self.bind_args(fs.node.args, list(fn.__defaults__ or ()), dict(fn.__kwdefaults__ or {}), args, kwargs, node, fn.__name__)
         ln = getattr(node, "lineno", 0)
         if c.requires is not None:
-            self.prove(call_by_names(c.requires, vals), "pre-of-%s" % c.qualname, ln)
+            self.prove(call_by_names(c.requires, dict(vals, _engine=self)), "pre-of-%s" % c.qualname, ln)
+        if c.external_args:
+            self.assumed.add("external %s: assumed contract (result unmodelled)" % c.target)
+            return Opaque(c.qualname, c.result_pytype)
         avail = dict(vals)
         for k, v in vals.items():
             avail["_old_" + k] = self.snapshot(v)
@@ -1204,6 +1228,61 @@ class Interp(Engine):
             for _, e in conjuncts(call_by_names(c.ensures, avail)):
                 self.run.pc.append(e)
         return result
+
+    def file_method(self, fp, name, args, node):
+        n = fp.seq.length
+        if name == "read":
+            if fp.closed:
+                raise PyRaise(ValueError, "I/O operation on closed file", node)
+            p = fp._pos
+            if not args or args[0] is None or (isinstance(args[0], int) and args[0] < 0):
+                cnt = None
+            else:
+                cnt = self.as_int(args[0], node)
+            pe, ne = _ie(p), _ie(n)
+            if cnt is None:
+                ln = z3.simplify(z3.If(ne > pe, ne - pe, z3.IntVal(0)))
+            else:
+                ce = _ie(cnt)
+                if is_sym(cnt) and self.decide(ce < 0):
+                    ln = z3.simplify(z3.If(ne > pe, ne - pe, z3.IntVal(0)))
+                else:
+                    avail = z3.If(ne > pe, ne - pe, z3.IntVal(0))
+                    if self.valid(z3.And(ce >= 0, ce <= avail)):
+                        ln = z3.simplify(ce)
+                    else:
+                        ln = z3.simplify(z3.If(ce <= avail, ce, avail))
+            if z3.is_int_value(ln):
+                ln = ln.as_long()
+            seq = fp.seq
+            out = SSeq(ln, lambda i, seq=seq, pe=pe: self._file_byte(seq, z3.simplify(pe + _ie(i))), kind="bytes")
+            try:
+                out.base = None
+            except AttributeError:
+                pass
+            self.file_reads = getattr(self, "file_reads", [])
+            self.file_reads.append((fp, p, ln))
+            newp = z3.simplify(pe + _ie(ln))
+            fp._pos = newp.as_long() if z3.is_int_value(newp) else SInt(newp)
+            out_origin = (fp, p)
+            self.origins = getattr(self, "origins", {})
+            self.origins[id(out)] = (out, out_origin)
+            return out
+        if name == "seek":
+            fp._pos = self.as_int(args[0], node)
+            return fp._pos
+        if name == "tell":
+            return fp._pos
+        if name == "close":
+            fp.closed = True
+            return None
+        raise Unsupported("file method %s" % name)
+
+    def _file_byte(self, seq, i):
+        v = seq.get(i)
+        if isinstance(v, SInt):
+            sym.note_fact(sym.byte_fact(v.e))
+        return v
 
     # ------------------------------------------------------------------------ methods on modelled objects
     def call_method(self, recv, name, args, kwargs, node, f):
@@ -1251,6 +1330,8 @@ class Interp(Engine):
             if name == "items":
                 return HList([(k, v) for k, v in dict.items(recv)])
             return getattr(dict, name)(recv, *args, **kwargs)
+        if isinstance(recv, HFile):
+            return self.file_method(recv, name, args, node)
         if isinstance(recv, BinStr):
             if name == "count" and args == ["1"]:
                 xe = _ie(recv.x)
@@ -1484,6 +1565,8 @@ def _m_isinstance(self, args, kwargs, node, f):
             r = v.map(lambda x: isinstance(x, t)).collapse()
             return r
         if isinstance(v, Opaque):
+            if v.pytype is not None:
+                return issubclass(v.pytype, t)
             if t is str:
                 return True
             raise Unsupported("isinstance of opaque value")
@@ -1783,12 +1866,13 @@ def _m_unpack(self, args, kwargs, node, f):
         pos += w
         if ch == "c":
             b0 = bs[0]
-            out.append(SSeq(1, lambda i, b0=b0: b0, kind="bytes"))
+            out.append(bytes([b0]) if isinstance(b0, int) else SSeq(1, lambda i, b0=b0: b0, kind="bytes"))
             continue
         val = z3.IntVal(0)
         for j, b in enumerate(bs):
             val = val + _ie(b) * (1 << (8 * j))
         if ch in "bhilq":
             val = z3.If(val >= (1 << (8 * w - 1)), val - (1 << (8 * w)), val)
-        out.append(SInt(z3.simplify(val)))
+        val = z3.simplify(val)
+        out.append(val.as_long() if z3.is_int_value(val) else SInt(val))
     return tuple(out)
